@@ -498,6 +498,21 @@ func storageCheck(d any, way int, st *Stats, afterStore func()) error {
 	if afterStore != nil {
 		afterStore()
 	}
+	// a tree-form write that goes THROUGH the stored value and fails behind it (the caller recovers): the
+	// value that is stored must still be the identical derived value afterwards
+	failing := "#x"
+	if !isList {
+		failing = ".zz#x"
+	}
+	if hostL != nil {
+		catch(func() { hostL.SetTF(fmt.Sprintf("#%d%s", idx, failing), 1) })
+		catch(func() { hostL.UnsetTF(fmt.Sprintf("#%d%s", idx, failing)) })
+	}
+	if hostO != nil {
+		catch(func() { hostO.SetTF("."+key+failing, 1) })
+		catch(func() { hostO.UnsetTF("." + key + failing) })
+	}
+	st.Count("failed_write_through_first")
 	if post != nil {
 		if err := post(); err != nil {
 			return err
